@@ -23,8 +23,9 @@ while the code still compiles and the existing tests still pass, and to supply a
 A change is kept only after `tools/evalmut.py` confirmed in a scratch worktree that the patch applies to
 HEAD, the demonstration fails with it and passes without it, and the existing tests of the touched
 packages pass with it; then the registered quick check of the property is run with `VERIF_REPO`
-pointing at that worktree. /repo itself is never touched. Waves 2-4 were told what the earlier
-waves had produced and asked for something substantially different. Each change is in
+pointing at that worktree. /repo itself is never touched. Waves 2-6 were told what the earlier
+waves had produced and asked for something substantially different (wave 6: six properties only, the ones whose checks had
+caught least at first evaluation in waves 4 and 5; two changes each). Each change is in
 `seeded/<name>/` (`patch.diff`, the demonstration, `meta.json` with what it needs to manifest, what
 was run, and the history of evaluations).
 
